@@ -8,3 +8,4 @@ CONSTANTS
     MaxSteps = 4
 INVARIANT Inv_Build
 INVARIANT Inv_Sub
+INVARIANT Inv_Update
